@@ -79,6 +79,7 @@ from apischema.types import AnyType, NoneType, Undefined, UndefinedType
 from apischema.typing import (
     get_args,
     get_origin,
+    is_literal,
     is_new_type,
     is_type,
     is_type_var,
@@ -89,10 +90,12 @@ from apischema.utils import (
     CollectionOrPredicate,
     Lazy,
     as_predicate,
+    get_args2,
     get_origin_or_type,
     get_origin_or_type2,
     identity,
     is_union_of,
+    no_annotated,
     opt_or,
 )
 from apischema.visitor import Unsupported
@@ -115,10 +118,14 @@ SerializationMethodFactory = Callable[[AnyType], SerializationMethod]
 T = TypeVar("T")
 
 
-def expected_class(tp: AnyType) -> type:
+def expected_class(tp: AnyType) -> Any:  # a class or a tuple of classes (isinstance)
     origin = get_origin_or_type2(tp)
     if origin is NoneType:
         return NoneType
+    elif is_literal(no_annotated(tp)):
+        return tuple({v.__class__ for v in get_args2(tp)})
+    elif is_union(origin):
+        return tuple(map(expected_class, get_args2(tp)))
     elif is_typed_dict(origin):
         return collections.abc.Mapping
     elif is_type(origin):
